@@ -238,6 +238,14 @@ def case_codegen(idx, rng, tier, res):
             except Exception:
                 continue
             units.append((how, ast, dict(seed_tab), m))
+            deps = [x for x, _s in m.imports if x in seed_tab and x not in base_symtab()]
+            if how == 'valid' and deps and rng.random() < 0.3:
+                # the same module against a symbol table that lacks one of its dependencies: whatever a
+                # generator saw in earlier calls, this call has only what it is given
+                short_tab = dict(seed_tab)
+                short_tab.pop(rng.choice(deps))
+                units.append(('nodep', ast, short_tab, m))
+                res.count('units_with_a_dependency_withheld')
             if how == 'valid':
                 try:
                     mi, st = tmp.genCode(__import__('copy').deepcopy(ast), seed_tab)
